@@ -68,10 +68,14 @@ SRT_EV = {"plain": 0, "font-nocolor": 1, "font-color-none": 2, "font-color-bad":
 VTT_EV = {"ruby": 0, "rt": 1, "span": 2}
 
 def srt_events(ev):
-    out = []
-    for k, a in ev:
-        out.append(SRT_EV[a] if k == "S" else 5 if k == "E" else 6)
+    """(event code, number of the tag name within the cue); the names are numbered in order of first appearance"""
+    out = []; names = {}
+    for k, a, *t in ev:
+        n = names.setdefault(t[0], len(names)) if t else 0
+        out.append((SRT_EV[a], n) if k == "S" else (5, n) if k == "E" else (6, 0))
     return out
+
+def pairs(xs): return "[" + ";".join(f"({a},{b})" for a, b in xs) + "]"
 
 def vtt_events(ev):
     out = []
@@ -140,7 +144,7 @@ def correspondence(run, tasks, results, spec_rows, thorough):
     sh = {
         "srt": Shards("srt", "text * list Z * Z * list Z", ["srt_case"]),
         "vtt": Shards("vtt", "text * list Z * Z * list Z", ["vtt_case"]),
-        "srtcur": Shards("srtcur", "Z * list Z * Z", ["srt_cursor_case", "srt_cursor_trigger_case"]),
+        "srtcur": Shards("srtcur", "Z * list (Z * Z) * Z", ["srt_cursor_case", "srt_cursor_trigger_case"]),
         "vttcur": Shards("vttcur", "Z * list Z * Z", ["vtt_cursor_case", "vtt_cursor_trigger_case"]),
         "srtview": Shards("srtview", "text * list Z", ["srt_view_case"]),
         "vttview": Shards("vttview", "text * list Z", ["vtt_view_case"]),
@@ -215,7 +219,7 @@ def correspondence(run, tasks, results, spec_rows, thorough):
                 key = (fmt, rec["attached"], tuple(ev), rec["end"])
                 if key in seen_cur: continue
                 seen_cur.add(key)
-                sh[fmt + "cur"].add(f"({int(rec['attached'])}, {zl(ev)}, {M_CODE[rec['end']]})", key)
+                sh[fmt + "cur"].add(f"({int(rec['attached'])}, {pairs(ev) if fmt == 'srt' else zl(ev)}, {M_CODE[rec['end']]})", key)
         elif fmt == "scc":
             tr = r["trace"] or []
             if any(rec["end"] not in M_CODE for rec in tr): skipped["scc:unmodelled-exception"] += 1; continue
